@@ -4,6 +4,7 @@ import (
 	"bytes"
 	"fmt"
 	"os"
+	"os/exec"
 	"path/filepath"
 	"reflect"
 	"regexp"
@@ -408,6 +409,24 @@ func c16(x *mon.Ctx) {
 	x.Extra["concurrent_rounds"] = rounds
 	x.Require("concurrent-round", rounds, 0, rounds)
 
+	// ---------------- first use: fresh processes whose very first verifications are concurrent
+	if self, err := os.Executable(); err == nil {
+		for k := 0; k < x.Pick(4, 16); k++ {
+			cmd := exec.Command(self, "-firstuse")
+			cmd.Env = os.Environ() // GORACE log_path is inherited: the child's reports land next to ours
+			outb, _ := cmd.CombinedOutput()
+			line := strings.TrimSpace(string(outb))
+			if i := strings.LastIndex(line, "\n"); i >= 0 {
+				line = line[i+1:]
+			}
+			okk := line == "ok"
+			if !okk && !strings.Contains(string(outb), "WARNING: DATA RACE") {
+				x.Violation("first-use", fmt.Sprint(k), "fresh process, first verifications concurrent: "+line, "none", string(outb))
+			}
+			x.Note("first-use", fmt.Sprint(k), okk, false, true)
+		}
+	}
+
 	// race reports
 	files, _ := filepath.Glob(filepath.Join(x.OutDir, "race.*"))
 	total, lib := 0, map[string]string{}
@@ -447,4 +466,41 @@ func c16(x *mon.Ctx) {
 	}
 	x.Note("race-detector", fmt.Sprintf("%d calls, %d reports", calls, total), len(lib) == 0, false, true)
 	x.Sample(map[string]any{"sub_check": "race", "rounds": rounds, "concurrent_calls": calls, "race_reports_total": total, "distinct_reports_in_library": len(lib), "verdict_mismatches": mismatches})
+}
+
+
+// FirstUse is run in a FRESH process (vworker -firstuse): its very first library calls are concurrent
+// verifications, half of them with the embedded root (TrustedRoots nil) and half with a generated pool, so that
+// lazily initialised package state is first touched from several goroutines at once. Prints "ok" or the mismatch.
+func FirstUse() string {
+	x := mon.NewCtx("C16", "quick", 1, "", "")
+	w := world.Honest(x.Rand("firstuse"), world.HonestOpts{Shape: world.QuoteShape{AuthLen: 32}})
+	gen := w.Case(world.LCrl, "firstuse", "")
+	intel := intelCase(intelSprE4, sprE4Time, "firstuse")
+	var wg sync.WaitGroup
+	start := make(chan struct{})
+	res := make([]string, 32)
+	for g := 0; g < 32; g++ {
+		wg.Add(1)
+		go func(g int) {
+			defer wg.Done()
+			c := intel
+			if g%2 == 1 {
+				c = gen
+			}
+			<-start
+			out := mon.RunVerify(c)
+			if !out.Accepted || out.Panic != "" {
+				res[g] = fmt.Sprintf("goroutine %d: first concurrent verification of an honest quote failed: %s %s", g, out.Err, out.Panic)
+			}
+		}(g)
+	}
+	close(start)
+	wg.Wait()
+	for _, r := range res {
+		if r != "" {
+			return r
+		}
+	}
+	return "ok"
 }
